@@ -190,6 +190,48 @@ let cyclic (g : Cfg.cfg) : bool =
   done;
   Stdlib.List.exists (fun a -> Hashtbl.mem reach (a, a)) nts
 
+(* C04: unverified search for an ambiguity witness (two different derivation trees of the same word); the witness is
+   validated by the proved checker Ambig.ambig_check *)
+let ambiguity_witness (g : Cfg.cfg) (words : BinNums.coq_N list list) : (Cfg.tree * Cfg.tree) option =
+  let prods_of a = Stdlib.List.filter (fun p -> p.Cfg.lhs = a) g.Cfg.prods in
+  (* all trees (at most [limit]) of symbol s deriving w, derivation depth bounded *)
+  let rec trees (s : Cfg.sym) (w : BinNums.coq_N list) (depth : int) (limit : int) : Cfg.tree list =
+    if depth <= 0 then [] else
+      match s with
+      | Cfg.T t -> (match w with [x] when x = t -> [Cfg.Leaf t] | _ -> [])
+      | Cfg.NT a ->
+        let res = ref [] in
+        Stdlib.List.iter (fun p ->
+            if Stdlib.List.length !res < limit then
+              Stdlib.List.iter (fun cs -> if Stdlib.List.length !res < limit then res := !res @ [Cfg.Node (p, cs)])
+                (forests p.Cfg.rhs w (depth - 1) (limit - Stdlib.List.length !res))) (prods_of a);
+        !res
+  and forests (syms : Cfg.sym list) (w : BinNums.coq_N list) (depth : int) (limit : int) : Cfg.tree list list =
+    match syms with
+    | [] -> if w = [] then [[]] else []
+    | s :: rest ->
+      let n = Stdlib.List.length w in
+      let res = ref [] in
+      for i = 0 to n do
+        if Stdlib.List.length !res < limit then begin
+          let w1 = Stdlib.List.filteri (fun j _ -> j < i) w and w2 = Stdlib.List.filteri (fun j _ -> j >= i) w in
+          let ts = trees s w1 depth limit in
+          if ts <> [] then begin
+            let fs = forests rest w2 depth limit in
+            Stdlib.List.iter (fun t -> Stdlib.List.iter (fun f -> if Stdlib.List.length !res < limit then res := !res @ [t :: f]) fs) ts
+          end
+        end
+      done;
+      !res in
+  let nnt = Stdlib.List.length (Stdlib.List.sort_uniq compare (Stdlib.List.map (fun p -> p.Cfg.lhs) g.Cfg.prods)) in
+  let found = ref None in
+  Stdlib.List.iter (fun w ->
+      if !found = None && Stdlib.List.length w <= 4 then
+        (match trees (Cfg.NT g.Cfg.start) w (Stdlib.List.length w + nnt + 2) 2 with
+         | t1 :: t2 :: _ -> found := Some (t1, t2)
+         | _ -> ())) words;
+  !found
+
 (* C03 / C04 *)
 let lr_table_of_sx = function
   | L [L acts; L sts; L prs; st; nterm; nnt] ->
@@ -277,6 +319,15 @@ let c03 = function
     (* C03 quantifies over grammars accepted WITHOUT resolved conflicts: with conflicts only soundness counts there *)
     if prop = "C03" && nconf' > 0 then
       problems := Stdlib.List.filter (fun (k, _) -> k = "accepts-non-sentence" || k = "parser-panic") !problems;
+    (* C04: a table without any reported conflict for a grammar with a CHECKED ambiguity witness *)
+    if prop = "C04" && nconf' = 0 then begin
+      let words = Stdlib.List.filter_map (function L (toks :: _) -> Some (ns_of_sx toks) | _ -> None) runs in
+      let words = Stdlib.List.sort_uniq compare words in
+      (match ambiguity_witness g2' words with
+       | Some (t1, t2) when Ambig.ambig_check g2' t1 t2 ->
+         problems := ("ambiguous-grammar-without-reported-conflict", Stdlib.String.concat " " (Stdlib.List.map (fun c -> string_of_int (int_of_n c)) (Cfg.yield t1))) :: !problems
+       | _ -> ())
+    end;
     (match Stdlib.List.rev !problems with
      | [] ->
        if safe then Printf.sprintf "OK %d %s%s" (if !nontrivial > 0 then 1 else 0) (if nconf' = 0 then "conflict-free" else "resolved-conflicts") (if start_rec then " recursive-start" else "")
